@@ -9,6 +9,7 @@ and converted; the Q model (legacy recurrence, conversion function, v0.3 recurre
 must reproduce the three observed trajectories and the converted arrays.
 oracle: the property's statement decided directly on the real objects (no Coq)."""
 import copy
+import gc
 import itertools
 import os
 import pickle
@@ -114,23 +115,6 @@ def arrays_of(node):
     return out
 
 
-def pair_objects(orig_root, copy_root):
-    """id(original node) -> copied node, walking model.nodes and feedback senders in parallel."""
-    mp, stack = {}, [(orig_root, copy_root)]
-    while stack:
-        a, b = stack.pop()
-        if hasattr(a, "nodes"):
-            stack += list(zip(a.nodes, b.nodes))
-            continue
-        if id(a) in mp:
-            continue
-        mp[id(a)] = b
-        fa, fbk = getattr(a, "_feedback", None), getattr(b, "_feedback", None)
-        if fa is not None and fbk is not None:
-            stack.append((fa._sender, fbk._sender))
-    return mp
-
-
 def shares(a, b):
     return any(np.shares_memory(x, y) for _, x in arrays_of(a) for _, y in arrays_of(b))
 
@@ -155,19 +139,16 @@ def snapshot(nodes):
 
 # ------------------------------------------------------------------------------------------ running ops on a (view of a) scenario
 class View:
-    """Quacks like scen.Built: the copied objects under the ids of the originals."""
+    """Quacks like scen.Built: some objects (copies, rebuilt or extended models) under the ids of the scenario."""
     nid = scen.Built.nid
     all_nodes = scen.Built.all_nodes
     model_struct = scen.Built.model_struct
 
-    def __init__(self, b, mp, model0):
-        self.sc, self.prefix = b.sc, b.prefix
-        self.nodes = {i: mp.get(id(n), n) for i, n in b.nodes.items()}
-        self.extra = {i: mp.get(id(n), n) for i, n in b.extra.items()}
-        self.extra_dim = {}
-        self.models = [model0] + [mp.get(id(m), m) for m in b.models[1:]]
+    def __init__(self, sc, prefix, nodes, extra, models):
+        self.sc, self.prefix = sc, prefix
+        self.nodes, self.extra, self.extra_dim = dict(nodes), dict(extra), {}
+        self.models = list(models)
         self.ids = {n.name: i for i, n in list(self.nodes.items()) + list(self.extra.items())}
-        self.desc = b.desc
 
 
 def run_ops(b, ops):
@@ -229,34 +210,57 @@ def gen_ops(rng, din, odim, single, n, stateless_ok=True):
     return ops
 
 
+# (how the copy is made, how the copied object was prepared).  Names are renamed PER OBJECT, by the registry of its class:
+#   pickle_gc      the bytes are kept, the Model object is deleted and collected (its name is free), its nodes stay alive
+#   pickle_gc_all  model and nodes are collected (node names free), another Model takes the model's name
+#   extend         the copied object is itself an (unregistered) deep copy, extended in place (&=) with a fresh, registered node
+#   rebuild_unreg  a registered Model built from unregistered deep copies of the nodes
+VARIANTS = [("deepcopy", None), ("pickle", None), ("pickle_gc", None), ("deepcopy", "extend"), ("nodecopy", None), ("deepcopy", None),
+            ("pickle_gc_all", None), ("deepcopy", "rebuild_unreg"), ("pickle", "extend"), ("nodecopy", None), ("pickle", "rebuild_unreg"),
+            ("pickle_gc", "extend"), ("deepcopy", None), ("pickle", None)]
+
+
 def gen_copy_scenario(rng, i):
     i = i if isinstance(i, int) else rng.randrange(1000)
-    how = ["deepcopy", "pickle", "deepcopy", "pickle", "nodecopy"][i % 5]
-    k = i // 5                                  # Node.copy variants are enumerated, not drawn
-    fam = rng.choice(["dag", "dag", "fb", "single"]) if how != "nodecopy" else ["fbrecv", "single"][k % 2]
+    how, prep = VARIANTS[i % len(VARIANTS)]
+    k = 2 * (i // len(VARIANTS)) + (1 if i % len(VARIANTS) > 4 else 0)      # Node.copy variants are enumerated, not drawn
+    pick = how.startswith("pickle")
+    if how == "nodecopy":
+        fam = ["fbrecv", "single"][k % 2]
+    elif prep or how in ("pickle_gc", "pickle_gc_all"):
+        fam = "dag" if (prep or rng.random() < 0.6) else "fb"
+    else:
+        fam = rng.choice(["dag", "dag", "fb", "single"])
     pre = []
     if fam == "dag":
-        kinds = list(PICKLABLE[:1] + ("lin", "resext", "delay", "nvar", "res")) if how == "pickle" else None
+        kinds = ["res", "lin", "resext", "delay", "nvar", "res"] if pick else None
         nodes, edges, entries, din = scengen.gen_dag(rng, n=rng.randint(2, 5), kinds=kinds)
         models = scengen.chain_models(nodes, edges)
     elif fam in ("fb", "fbrecv"):
-        sk = scengen.gen_fb(rng, "resfb" if how == "pickle" else rng.choice(["down", "up", "outside", "sub-up", "sub-down", "resfb"]))
+        sk = scengen.gen_fb(rng, "resfb" if pick else rng.choice(["down", "up", "outside", "sub-up", "sub-down", "resfb"]))
         nodes, models, din, pre = sk["nodes"], sk["models"], sk["dim"], list(sk["pre"])
     else:
-        kinds = ["res", "resext", "delay", "nvar", "lin"] + ([] if how == "pickle" else ["fun", "acc"])
+        kinds = ["res", "resext", "delay", "nvar", "lin"] + ([] if pick else ["fun", "acc"])
         din = rng.randint(1, 2)
         nodes = [scengen.make_node(rng, 0, rng.choice(kinds), din)]
         models = [{"nodes": [0], "edges": []}]
-    odim = {nd["id"]: nd["odim"] for nd in nodes}
     single = fam == "single"
-    if how == "pickle" and any(nd["kind"] not in PICKLABLE for nd in nodes):
-        how = "deepcopy"                           # closures (custom forward functions) cannot be pickled
-    sc = {"family": "copy", "shape": fam, "how": how, "nodes": nodes, "models": models, "din": din, "tag": i,
+    if pick and any(nd["kind"] not in PICKLABLE for nd in nodes):
+        how = {"pickle": "deepcopy", "pickle_gc": "deepcopy", "pickle_gc_all": "deepcopy"}[how]   # closures cannot be pickled
+    ext = None
+    if prep == "extend":
+        t = rng.choice([nd["id"] for nd in nodes])
+        e = scengen.make_node(rng, len(nodes), "lin", nodes[t]["odim"])
+        nodes = nodes + [e]
+        models = models + [{"nodes": [e["id"]], "edges": []}]
+        ext = {"tail": t, "node": e["id"]}
+    odim = {nd["id"]: nd["odim"] for nd in nodes}
+    sc = {"family": "copy", "shape": fam, "how": how, "prep": prep, "ext": ext, "nodes": nodes, "models": models, "din": din, "tag": i,
           "kinds": sorted(set(nd["kind"] for nd in nodes)),
           "pre": pre + gen_ops(rng, din, odim, single, rng.randint(0, 3)),
           "post": gen_ops(rng, din, odim, single, rng.randint(2, 4)),
           "other": gen_ops(rng, din, odim, single, rng.randint(1, 2)),
-          "side": rng.choice(["copy", "orig"]), "seed": rng.randrange(10 ** 6)}
+          "side": "copy" if how in ("pickle_gc", "pickle_gc_all") else rng.choice(["copy", "orig"]), "seed": rng.randrange(10 ** 6)}
     if how == "nodecopy":
         sc["copy_feedback"] = (k // 2) % 2 == 0
         sc["newname"] = "taken" if k % 5 == 4 else "fresh"
@@ -269,45 +273,137 @@ def gen_copy_scenario(rng, i):
     return sc
 
 
-def do_copy(sc, b):
-    """Perform the copy.  Returns (copied root or None on NameError, mapping id(orig)->copy, requested name)."""
+def pair_list(pairs):
+    """id(original node) -> copied node, walking model.nodes and feedback senders in parallel."""
+    mp, stack = {}, list(pairs)
+    while stack:
+        a, b = stack.pop()
+        if hasattr(a, "nodes"):
+            stack += list(zip(a.nodes, b.nodes))
+            continue
+        if id(a) in mp:
+            continue
+        mp[id(a)] = b
+        fa, fbk = getattr(a, "_feedback", None), getattr(b, "_feedback", None)
+        if fa is not None and fbk is not None:
+            stack.append((fa._sender, fbk._sender))
+    return mp
+
+
+def view_sc(sc):
+    """The scenario description of the prepared object (scen.Built.model_struct reads the exits from the description)."""
+    if sc.get("prep") == "extend":
+        md = sc["models"][0]
+        full = {"nodes": list(md["nodes"]) + [sc["ext"]["node"]], "edges": [list(e) for e in md["edges"]] + [[sc["ext"]["tail"], sc["ext"]["node"]]]}
+        return dict(sc, models=[full])
+    return sc
+
+
+def prepare(sc, b0):
+    """The object that will be copied: the scenario's model 0 as built, or a model derived from it."""
+    from reservoirpy.model import Model
+    if sc.get("prep") == "rebuild_unreg":
+        md = sc["models"][0]
+        nc = {i: copy.deepcopy(n) for i, n in b0.nodes.items()}            # '<name>-(copy)', not registered
+        m = Model([nc[i] for i in md["nodes"]], [(nc[a], nc[bb]) for a, bb in md["edges"]], name="%s_mu" % b0.prefix)
+        return View(view_sc(sc), b0.prefix, nc, {}, [m])
+    if sc.get("prep") == "extend":
+        base, e = b0.models[0], b0.nodes[sc["ext"]["node"]]
+        c1 = copy.deepcopy(base)                                           # model and nodes '-(copy)', none registered
+        mp = pair_list([(base, c1)])
+        nodes = {i: mp[id(n)] for i, n in b0.nodes.items() if id(n) in mp}
+        if hasattr(c1, "nodes"):
+            c1 &= (nodes[sc["ext"]["tail"]] >> e)                          # in place: update_graph
+        else:
+            c1 = c1 >> e
+        nodes[sc["ext"]["node"]] = e
+        return View(view_sc(sc), b0.prefix, nodes, {}, [c1])
+    return b0
+
+
+def capture(b):
+    """Everything the structural comparison needs about the object about to be copied (no reference to the Model object)."""
+    for mi in range(len(b.models)):
+        b.model_struct(mi)
     m0 = b.models[0]
-    if sc["how"] == "deepcopy":
-        c = copy.deepcopy(m0)
-    elif sc["how"] == "pickle":
-        c = pickle.loads(pickle.dumps(m0))
+    allnodes = dict(b.all_nodes())
+    info = {"cells": [(i, type(n), n.name, [b.nid(s) for s in senders_of(n)]) for i, n in sorted(allnodes.items())],
+            "objs": allnodes, "is_model": hasattr(m0, "nodes")}
+    if info["is_model"]:
+        info.update(onodes=[b.nid(n) for n in m0.nodes], mname=m0.name, mtype=type(m0),
+                    edges=[(b.nid(a), b.nid(bb)) for a, bb in m0.edges], oreg=[(k, b.nid(n)) for k, n in m0._node_registry.items()])
     else:
-        node = b.nodes[sc["target"]]
-        name = node.name if sc["newname"] == "taken" else "%s_cp%d" % (node.name, next(_uid))
-        try:
-            c = node.copy(name=name, copy_feedback=sc["copy_feedback"])
-        except NameError:
-            return None, {}, name
-        mp = {id(node): c}
-        if sc["copy_feedback"] and getattr(node, "_feedback", None) is not None:
-            so, scp = node._feedback._sender, c._feedback._sender
-            sub = pair_objects(so, scp)
-            sub.pop(id(node), None)      # a sender that reaches the node itself yields a second, unobservable copy of it
-            mp.update(sub)
-        return c, mp, name
-    return c, pair_objects(m0, c), None
+        info.update(onodes=[b.nid(m0)], mname="", mtype=None, edges=[], oreg=[(m0.name, b.nid(m0))])
+    info["snap"] = {i: snapshot([allnodes[i]])[0] for i in info["onodes"]}
+    return info
 
 
-def struct_term(sc, b, c, mp, name):
-    """Gallina term comparing the structure of the copy with the object-store model."""
-    allnodes = b.all_nodes()
-    # feedback senders living outside the scenario's id table do not occur (senders are scenario nodes)
+def do_copy(sc, b, info, holders):
+    """Perform the copy.  Returns (copied root or None on NameError, {scenario id: copied object}, requested name)."""
+    from reservoirpy.model import Model
+    m0 = b.models[0]
+    inv = {id(n): i for i, n in info["objs"].items()}
+    how = sc["how"]
+    if how in ("deepcopy", "pickle"):
+        c = copy.deepcopy(m0) if how == "deepcopy" else pickle.loads(pickle.dumps(m0))
+        return c, {inv[k]: v for k, v in pair_list([(m0, c)]).items() if k in inv}, None
+    if how in ("pickle_gc", "pickle_gc_all"):
+        blob = pickle.dumps(m0)
+        keep = None
+        for h in holders:                                 # drop every reference to the Model object
+            h.models[0] = None
+        if how == "pickle_gc_all":                        # ... and to the nodes
+            for h in holders:
+                h.nodes.clear()
+                h.extra.clear()
+            info["objs"] = {}
+        del m0
+        gc.collect()
+        if how == "pickle_gc_all" and info["is_model"]:
+            keep = Model(name=info["mname"])              # somebody else takes the model's name
+        info["regd_now"] = registered_now(info)
+        c = pickle.loads(blob)
+        info["keep"] = keep
+        cn = list(c.nodes) if hasattr(c, "nodes") else [c]
+        return c, dict(zip(info["onodes"], cn)), None
+    node = b.nodes[sc["target"]]
+    name = node.name if sc["newname"] == "taken" else "%s_cp%d" % (node.name, next(_uid))
+    try:
+        c = node.copy(name=name, copy_feedback=sc["copy_feedback"])
+    except NameError:
+        return None, {}, name
+    idmap = {sc["target"]: c}
+    if sc["copy_feedback"] and getattr(node, "_feedback", None) is not None:
+        sub = pair_list([(node._feedback._sender, c._feedback._sender)])
+        sub.pop(id(node), None)      # a sender that reaches the node itself yields a second, unobservable copy of it
+        idmap.update({inv[k]: v for k, v in sub.items() if k in inv})
+    return c, idmap, name
+
+
+def registered_now(info):
+    """(class index, name) pairs that are in their class registry right now; the model's class is 99."""
     classes = {}
+    out = []
+    for i, t, nm, fb in info["cells"]:
+        k = classes.setdefault(t.__name__, len(classes) + 1)
+        if nm in t._registry:
+            out.append((k, nm))
+    if info["mtype"] is not None and info["mname"] in info["mtype"]._registry:
+        out.append((99, info["mname"]))
+    return out
 
-    def cls(o):
-        return classes.setdefault(type(o).__name__, len(classes) + 1)
-    cells, regd = [], []
-    for i, n in sorted(allnodes.items()):
-        cells.append("(%s, %s, %s, %s)" % (nat(i), nat(cls(n)), coqstr(n.name), coqlist([nat(b.nid(s)) for s in senders_of(n)])))
-        if n.name in type(n)._registry:
-            regd.append("(%s, %s)" % (nat(cls(n)), coqstr(n.name)))
-    inv = {id(v): i for i, v in allnodes.items()}                      # original object -> id
-    cinv = {id(v): [i for i, n in allnodes.items() if id(n) == k][0] for k, v in mp.items() if any(id(n) == k for n in allnodes.values())}
+
+def struct_term(sc, info, c, idmap, name):
+    """Gallina term comparing the structure of the copy with the object-store model."""
+    classes = {}
+    cells = []
+    for i, t, nm, fb in info["cells"]:
+        k = classes.setdefault(t.__name__, len(classes) + 1)
+        cells.append("(%s, %s, %s, %s)" % (nat(i), nat(k), coqstr(nm), coqlist([nat(j) for j in fb])))
+    # the class registries as they were when the copy was restored
+    regd = coqlist(["(%s, %s)" % (nat(k), coqstr(nm)) for k, nm in (info["regd_before"] if "regd_before" in info else info["regd_now"])])
+    inv = {id(v): i for i, v in info["objs"].items()}                      # original object -> id
+    cinv = {id(v): i for i, v in idmap.items()}                            # copied object -> id of its original
 
     def desc(p):
         if id(p) in inv:                        # it IS one of the original objects
@@ -315,66 +411,94 @@ def struct_term(sc, b, c, mp, name):
         if id(p) in cinv:                       # a distinct object, paired with original cinv[...]
             return "(true, %s)" % nat(cinv[id(p)])
         return "(true, %s)" % nat(99999)
+
+    def shared(i, cobj):
+        o = info["objs"].get(i)
+        return o is not None and (o is cobj or shares(o, cobj))
+
+    def equal(i, cobj):
+        return snapshot([cobj])[0] == info["snap"][i]
     if sc["how"] == "nodecopy":
-        node = b.nodes[sc["target"]]
+        t = sc["target"]
         if c is None:
             return "chk_node_copy %s %s %s %s %s false [] false false false" % (
-                coqlist(cells), coqlist(regd), nat(sc["target"]), coqstr(name), coqbool(sc["copy_feedback"]))
+                coqlist(cells), regd, nat(t), coqstr(name), coqbool(sc["copy_feedback"]))
         return "chk_node_copy %s %s %s %s %s true %s %s %s %s" % (
-            coqlist(cells), coqlist(regd), nat(sc["target"]), coqstr(name), coqbool(sc["copy_feedback"]),
-            coqlist([desc(p) for p in senders_of(c)]), coqbool(c.name in type(c)._registry), coqbool(shares(node, c)),
-            coqbool(equal_contents(node, c) and c.name == name))
-    m0 = b.models[0]
-    if hasattr(m0, "nodes"):
-        onodes, cnodes = list(m0.nodes), list(c.nodes)
-        mname, o_mname = m0.name, c.name
-        if m0.name in type(m0)._registry:
-            regd.append("(%s, %s)" % (nat(99), coqstr(m0.name)))
-        edges = [(b.nid(a), b.nid(bb)) for a, bb in m0.edges]
-        oreg = [(k, b.nid(n)) for k, n in m0._node_registry.items()]
+            coqlist(cells), regd, nat(t), coqstr(name), coqbool(sc["copy_feedback"]),
+            coqlist([desc(p) for p in senders_of(c)]), coqbool(c.name in type(c)._registry), coqbool(shared(t, c)),
+            coqbool(equal_contents(info["objs"][t], c) and c.name == name))
+    if info["is_model"]:
+        cnodes = list(c.nodes)
+        o_mname = c.name
         o_reg = [(k, ([j for j, x in enumerate(cnodes) if x is n] + [len(cnodes)])[0]) for k, n in c._node_registry.items()]
         try:
             named = all(c.get_node(n.name) is n for n in cnodes)
         except Exception:  # noqa: BLE001
             named = False
     else:                                       # a bare node: an object holding one node, no registry of its own
-        onodes, cnodes = [m0], [c]
-        mname = o_mname = ""
-        edges, oreg, o_reg, named = [], [(m0.name, b.nid(m0))], [(c.name, 0)], True
+        cnodes, o_mname, o_reg, named = [c], "", [(c.name, 0)], True
     return "chk_copy_model %s %s %s %s %s %s %s %s %s %s %s %s %s %s" % (
-        coqlist(cells), coqlist(regd), nat(99), coqstr(mname), coqlist([nat(b.nid(n)) for n in onodes]),
-        coqlist(["(%s, %s)" % (nat(a), nat(bb)) for a, bb in edges]),
-        coqlist(["(%s, %s)" % (coqstr(k), nat(i)) for k, i in oreg]),
+        coqlist(cells), regd, nat(99), coqstr(info["mname"]), coqlist([nat(i) for i in info["onodes"]]),
+        coqlist(["(%s, %s)" % (nat(a), nat(bb)) for a, bb in info["edges"]]),
+        coqlist(["(%s, %s)" % (coqstr(k), nat(i)) for k, i in info["oreg"]]),
         coqstr(o_mname), coqlist([coqstr(n.name) for n in cnodes]),
         coqlist(["(%s, %s)" % (coqstr(k), nat(i)) for k, i in o_reg]),
         coqlist([coqlist([desc(p) for p in senders_of(n)]) for n in cnodes]),
-        coqlist([coqbool(shares(a, bb)) for a, bb in zip(onodes, cnodes)]),
-        coqlist([coqbool(equal_contents(a, bb)) for a, bb in zip(onodes, cnodes)]), coqbool(named))
+        coqlist([coqbool(shared(i, n)) for i, n in zip(info["onodes"], cnodes)]),
+        coqlist([coqbool(equal(i, n)) for i, n in zip(info["onodes"], cnodes)]), coqbool(named))
 
 
 def run_copy_scenario(sc):
     """Returns (Gallina term, observation summary)."""
     rng = core.random.Random(sc["seed"])
-    b = scen.Built(dict(sc, ops=[]))
+    b0 = scen.Built(dict(sc, ops=[]))
+    b = prepare(sc, b0)
+    holders = [b0, b] if b is not b0 else [b0]
+    if b is not b0:
+        b0.models[0] = None                      # the model the prepared one was derived from is not kept
     obs_pre = run_ops(b, sc["pre"])
-    for mi in range(len(b.models)):
-        b.model_struct(mi)
-    c, mp, name = do_copy(sc, b)
-    sterm = struct_term(sc, b, c, mp, name)
-    summary = {"copied": c is not None, "names": None if c is None else ([n.name for n in c.nodes] if hasattr(c, "nodes") else [c.name])}
+    info = capture(b)
+    info["regd_before"] = registered_now(info)
+    hist_pre = scen.to_coq(dict(sc, ops=sc["pre"]), b, obs_pre)
+    if sc["how"] == "pickle_gc_all":
+        nodes_before, extra_before, models_rest = {}, {}, []          # nothing may keep the original nodes alive
+    else:
+        nodes_before, extra_before, models_rest = dict(b.nodes), dict(b.extra), list(b.models[1:])
+    c, idmap, name = do_copy(sc, b, info, holders)
+    if sc["how"] == "pickle_gc_all":
+        nodes_before = {i: o for i, o in idmap.items() if i < 1000}
+        extra_before = {i: o for i, o in idmap.items() if i >= 1000}
+    if "regd_now" in info:
+        info.pop("regd_before")                  # the registries were read again after the collection
+    sterm = struct_term(sc, info, c, idmap, name)
+    summary = {"copied": c is not None, "names": None if c is None else ([n.name for n in c.nodes] if hasattr(c, "nodes") else [c.name]),
+               "model_name": getattr(c, "name", None) if c is not None else None}
     if c is None or not sc["post"]:
-        hist = scen.to_coq(dict(sc, ops=sc["pre"]), b, obs_pre)
-        return "(%s) && (%s)" % (sterm, hist), summary
-    view = View(b, mp, c)
-    a_side, b_side = (view, b) if sc["side"] == "copy" else (b, view)
+        return "(%s) && (%s)" % (sterm, hist_pre), summary
+    view = View(view_sc(sc), b0.prefix, {i: idmap.get(i, n) for i, n in nodes_before.items()}, {i: idmap.get(i, n) for i, n in extra_before.items()},
+                [c] + [idmap.get(info_id(m, nodes_before), m) for m in models_rest])
+    orig_alive = b.models[0] is not None
+    a_side = view if (sc["side"] == "copy" or not orig_alive) else b
     # the other side is run on other inputs and then overwritten in place, before this side continues
-    run_ops(b_side, sc["other"])
-    m_other = b_side.models[0]
-    destroy(list(m_other.nodes) if hasattr(m_other, "nodes") else [m_other], rng)
+    if orig_alive:
+        b_side = b if a_side is view else view
+        run_ops(b_side, sc["other"])
+        m_other = b_side.models[0]
+        destroy(list(m_other.nodes) if hasattr(m_other, "nodes") else [m_other], rng)
+    else:
+        destroy(list(info["objs"].values()), rng)          # the original nodes that are still alive
     obs_post = run_ops(a_side, sc["post"])
-    hist = scen.to_coq(dict(sc, ops=sc["pre"] + sc["post"]), b, obs_pre + obs_post)
+    # the model term is printed from the side that was run (both sides have the same structure)
+    hist = scen.to_coq(dict(sc, ops=sc["pre"] + sc["post"]), a_side, obs_pre + obs_post)
     summary["post_ok"] = [o["ok"] for o in obs_post]
     return "(%s) && (%s)" % (sterm, hist), summary
+
+
+def info_id(m, nodes_before):
+    for i, n in nodes_before.items():
+        if n is m:
+            return i
+    return None
 
 
 # ------------------------------------------------------------------------------------------ scenarios: legacy ESN
@@ -541,7 +665,14 @@ def _viol(key, what, sc, expected=None, observed=None):
 
 def gen_oracle_copy(rng, i):
     kind = ["model", "model_fb", "esn", "esn_fb", "scen", "node", "node_fb"][i % 7]
-    return {"family": "ocopy", "kind": kind, "how": rng.choice(["deepcopy", "pickle"]) if kind not in ("node", "node_fb") else rng.choice(["deepcopy", "pickle", "nodecopy"]),
+    k = i // 7
+    if kind in ("model", "model_fb"):
+        how, prep = [("deepcopy", None), ("pickle_gc", None), ("deepcopy", "extend"), ("pickle", None), ("pickle_gc", "extend"), ("pickle", "extend")][k % 6]
+    elif kind in ("node", "node_fb"):
+        how, prep = ["deepcopy", "pickle", "nodecopy"][k % 3], None
+    else:
+        how, prep = ["deepcopy", "pickle"][k % 2], None
+    return {"family": "ocopy", "kind": kind, "how": how, "prep": prep,
             "trained": rng.random() < 0.7, "history": rng.randint(0, 2), "seed": rng.randrange(10 ** 6), "tag": i, "dout": rng.randint(1, 2)}
 
 
@@ -584,10 +715,9 @@ def _flat(r):
     return np.atleast_2d(np.asarray(r, dtype=float))
 
 
-def _judge_copy(sc):
+def _prepare_oracle(sc):
+    """Build (deterministically from sc['seed']) the object to copy, with its training / run history.  Returns a dict, or a violation."""
     rng = core.random.Random(sc["seed"])
-    if sc["kind"] == "scen":
-        return _judge_copy_scen(sc, rng)
     built = _build_oracle(sc, rng)
     root, nodes, din, is_esn = built[:4]
     model = built[4] if len(built) > 4 else root          # node_fb: the node lives in a model with its sender
@@ -602,9 +732,42 @@ def _judge_copy(sc):
         ok, r = _try(lambda: model.run(data(3, din)))
         if not ok:
             return _viol("run:exception", "valid model raises before any copy: %s" % r, sc)
+    # the object to copy may itself be an (unregistered) deep copy extended in place with a fresh, registered node
+    if sc.get("prep") == "extend" and hasattr(root, "nodes") and not is_esn:
+        from reservoirpy.nodes import Reservoir
+        c1 = copy.deepcopy(root)
+        extra = Reservoir(2, lr=0.5, W=scen.fl(scengen.mat(rng, 2, 2, 3, 2)), Win=scen.fl(scengen.mat(rng, 2, sc["dout"], 2, 1)),
+                          bias=scen.fl(scengen.mat(rng, 2, 1, 2, 1)), name="o%d_extra" % next(_uid))
+        c1 &= (c1.nodes[-1] >> extra)
+        root = model = c1
+    return {"root": root, "model": model, "din": din, "is_esn": is_esn, "trainable": trainable, "Xtr": Xtr, "Ytr": Ytr, "rng": rng,
+            "keep": built}
+
+
+def _judge_copy(sc):
+    if sc["kind"] == "scen":
+        return _judge_copy_scen(sc, core.random.Random(sc["seed"]))
+    P = _prepare_oracle(sc)
+    if "key" in P:
+        return P
+    root, model, din, is_esn, trainable, Xtr, Ytr, rng = (P[k] for k in ("root", "model", "din", "is_esn", "trainable", "Xtr", "Ytr", "rng"))
+    data = lambda T, d: scen.fl(scengen.rows(rng, T, d, 4, 2))  # noqa: E731
     # ---- copy
     key_ops = "copy:esn-node-copy-unusable" if is_esn else "copy:stale-node-registry"
-    if sc["how"] == "nodecopy":
+    if sc["how"] == "pickle_gc" and hasattr(root, "nodes") and not is_esn:
+        # a twin with the same arrays and the same history is pickled; the bytes are kept, the twin's Model object is collected
+        # (its name is free again) while its nodes stay alive; the restored model is compared with the first one
+        Q = _prepare_oracle(sc)
+        twin_nodes = list(Q["root"].nodes)
+        ok, blob = _try(lambda: pickle.dumps(Q["root"]))
+        if not ok:
+            return _viol("copy:exception", "pickling raises: %s" % blob, sc)
+        Q["root"] = Q["model"] = Q["keep"] = None
+        gc.collect()
+        ok, c = _try(lambda: pickle.loads(blob))
+        if ok and [n.name for n in c.nodes] == [n.name for n in twin_nodes]:
+            return _viol("oracle:exception", "the twin's nodes were expected to be alive (names taken) when the bytes were loaded", sc)
+    elif sc["how"] == "nodecopy":
         ok, c = _try(lambda: root.copy(name=root.name + "_c%d" % next(_uid)))
     elif sc["how"] == "deepcopy":
         ok, c = _try(lambda: copy.deepcopy(root))
@@ -612,6 +775,11 @@ def _judge_copy(sc):
         ok, c = _try(lambda: pickle.loads(pickle.dumps(root)))
     if not ok:
         return _viol("copy:exception", "copying raises: %s" % c, sc)
+    if hasattr(c, "nodes") and not is_esn:
+        stale = [n.name for n in c.nodes if n.name not in c.node_names or c.params.get(n.name) is not n.params]
+        if stale:
+            return _viol(key_ops, "the %s copy's name tables (node_names / params) do not list its nodes %s: node_names = %s"
+                         % (sc["how"], stale, c.node_names), sc, [n.name for n in c.nodes], c.node_names)
     cnodes = list(c.nodes) if hasattr(c, "nodes") else [c]
     onodes = list(root.nodes) if hasattr(root, "nodes") else [root]
     shared_ok = set()
@@ -683,46 +851,71 @@ def _judge_copy(sc):
 
 
 def _judge_copy_scen(sc, rng):
-    """Random scenario-language models: outputs equal, name-keyed operations work, nothing shared."""
-    s2 = gen_copy_scenario(rng, sc["tag"])
+    """Random scenario-language models (as built, rebuilt from unregistered copies, or extended in place), copied by deepcopy /
+    pickle / pickle with the Model object collected before the bytes are loaded: outputs equal, name-keyed operations work,
+    nothing shared."""
+    s2 = gen_copy_scenario(rng, sc["tag"] if isinstance(sc["tag"], int) else rng.randrange(1000))
     if s2["how"] == "nodecopy":
         s2["how"] = "deepcopy"
-    b = scen.Built(dict(s2, ops=[]))
+    full = dict(sc, inner=s2)
+    b0 = scen.Built(dict(s2, ops=[]))
+    b = prepare(s2, b0)
+    if b is not b0:
+        b0.models[0] = None
     run_ops(b, s2["pre"])
     m0 = b.models[0]
-    ok, c = _try(lambda: copy.deepcopy(m0) if s2["how"] == "deepcopy" else pickle.loads(pickle.dumps(m0)))
+    is_model = hasattr(m0, "nodes")
+    onodes = list(m0.nodes) if is_model else [m0]
+    how = s2["how"] if is_model or s2["how"] in ("deepcopy", "pickle") else "pickle"
+    # the copy (or the bytes it will be restored from) is taken now; the operations are then applied to the original first
+    ok, src = _try(lambda: copy.deepcopy(m0) if how == "deepcopy" else pickle.dumps(m0))
     if not ok:
-        return _viol("copy:exception", "copying raises: %s" % c, dict(sc, inner=s2))
-    onodes = list(m0.nodes) if hasattr(m0, "nodes") else [m0]
+        return _viol("copy:exception", "copying raises: %s" % src, full)
+    X = scen.fl(scengen.rows(rng, 4, s2["din"]))
+    entry = lambda m: [n.name for n in (m.input_nodes if hasattr(m, "nodes") else [m])]  # noqa: E731
+    # every call gets its own input array: a Delay node keeps views of the rows it is given
+    ops = [("run", lambda m: m.run(X.copy())), ("run(stateful=False)", lambda m: m.run(X.copy(), stateful=False)),
+           ("run(name-keyed input)", lambda m: m.run({k: X.copy() for k in entry(m)}) if hasattr(m, "nodes") else m.run(X.copy())),
+           ("run(return_states='all')", lambda m: m.run(X.copy(), return_states="all") if hasattr(m, "nodes") else m.run(X.copy())),
+           ("get_node", lambda m: [m.get_node(n.name) is n or 1 / 0 for n in m.nodes] and 0.0 if hasattr(m, "nodes") else 0.0)]
+    before0 = snapshot(onodes)
+    res_o = [_try(lambda: f(m0)) for _, f in ops]
+    after_o = snapshot(onodes)
+    if how in ("pickle_gc", "pickle_gc_all"):
+        for h in (b0, b):
+            h.models[0] = None
+        del m0
+        gc.collect()
+    if how == "deepcopy":
+        c = src
+    else:
+        ok, c = _try(lambda: pickle.loads(src))
+        if not ok:
+            return _viol("copy:exception", "unpickling raises: %s" % c, full)
     cnodes = list(c.nodes) if hasattr(c, "nodes") else [c]
     for a, bb in zip(onodes, cnodes):
-        if shares(a, bb):
-            return _viol("copy:shared-state", "an array of the copy of %s shares memory with the original" % a.name, dict(sc, inner=s2))
-    X = scen.fl(scengen.rows(rng, 4, s2["din"]))
-    entries_o = [n.name for n in (m0.input_nodes if hasattr(m0, "nodes") else [m0])]
-    entries_c = [n.name for n in (c.input_nodes if hasattr(c, "nodes") else [c])]
-    # every call gets its own input array: a Delay node keeps views of the rows it is given
-    for label, f in [("run", lambda m, e: m.run(X.copy())), ("run(stateful=False)", lambda m, e: m.run(X.copy(), stateful=False)),
-                     ("run(name-keyed input)", lambda m, e: m.run({k: X.copy() for k in e}) if hasattr(m, "nodes") else m.run(X.copy())),
-                     ("run(return_states='all')", lambda m, e: m.run(X.copy(), return_states="all") if hasattr(m, "nodes") else m.run(X.copy()))]:
-        oko, ro = _try(lambda: f(m0, entries_o))
+        if a is bb or shares(a, bb):
+            return _viol("copy:shared-state", "an array of the copy of %s shares memory with the original" % a.name, full)
+    if snapshot(cnodes) != before0 and how != "deepcopy":
+        return _viol("copy:contents-differ", "the arrays of the restored model differ from those of the pickled one", full)
+    for (label, f), (oko, ro) in zip(ops, res_o):
         if not oko:
             continue
-        okc, rc = _try(lambda: f(c, entries_c))
+        okc, rc = _try(lambda: f(c))
         if not okc:
-            return _viol("copy:stale-node-registry", "%s works on the original but raises on its %s copy: %s" % (label, s2["how"], rc), dict(sc, inner=s2))
+            return _viol("copy:stale-node-registry", "%s works on the original but raises on its %s copy (model %s, nodes %s): %s"
+                         % (label, how, c.name, [n.name for n in cnodes], rc), full)
         if isinstance(ro, dict):
-            # keys are names: compare in node order
-            ro = {k.replace("-(copy)", ""): v for k, v in ro.items()}
-            rc = {k.replace("-(copy)", ""): v for k, v in rc.items()}
+            ro, rc = [ro[k] for k in ro], [rc[k] for k in rc]                # keys are names: compare in order
+            ro, rc = np.hstack([np.atleast_2d(v) for v in ro]), np.hstack([np.atleast_2d(v) for v in rc])
         fo, fc = _flat(ro), _flat(rc)
         if fo.shape != fc.shape or not np.allclose(fo, fc, rtol=1e-12, atol=1e-12):
-            return _viol("copy:outputs-differ", "%s returns different values on the original and on its copy" % label, dict(sc, inner=s2), fo.tolist(), fc.tolist())
-    before = snapshot(onodes)
-    _try(lambda: c.run(X.copy()))
+            return _viol("copy:outputs-differ", "%s returns different values on the original and on its copy" % label, full, fo.tolist(), fc.tolist())
+    if snapshot(onodes) != after_o:
+        return _viol("copy:shared-state", "running the copy changed params or state of the original", full)
     destroy(cnodes, rng)
-    if snapshot(onodes) != before:
-        return _viol("copy:shared-state", "running / overwriting the copy changed params or state of the original", dict(sc, inner=s2))
+    if snapshot(onodes) != after_o:
+        return _viol("copy:shared-state", "overwriting the copy changed params or state of the original", full)
     return None
 
 
